@@ -12,9 +12,7 @@ MCShapes == { {[t |-> "ta", n |-> 2, names |-> {"a", "sb"}]},
               {[t |-> "ta", n |-> 1, names |-> {"a", "c"}]},
               {[t |-> "ta", n |-> 3, names |-> {"sb"}]},
               {[t |-> "tb", n |-> 1, names |-> {"c"}], [t |-> "ta", n |-> 2, names |-> {"c", "sb"}]} }
-MCAvoid == {"flush finds a column of the partition it has just registered evicted",
-            "query reads a cold partition whose files or catalogue entry are gone",
-            "compaction reads a cold partition that is not on disk"}
+MCAvoid == {}
 
 hvars == <<vars, hist, posts>>
 Ready == up /\ Quiet
